@@ -6,10 +6,11 @@
      1. tables (tab_set / tab_get)
      2. what one iteration of summ_loop does on a rendered summary record
      3. parse_summary on a rendered file: parse_summary_rendered_thm, Info: C08_info_thm
-     4. permutation invariance: C12_summary_order_thm
-     5. walk / load_chunk_i on a rendered chunk: C02_loader_ok_rendered_thm and the end-to-end
+        (C08_info_offs_thm, with the summary offset records written separately, is at the end)
+     4. walk / load_chunk_i on a rendered chunk: C02_loader_ok_rendered_thm and the end-to-end
         corollary C02_indexed_read_rendered_thm
-     6. examples (non-vacuity) *)
+     5. permutation invariance: C12_summary_order_thm, C12_dispatch_thm
+     6. boolean checkers, examples (non-vacuity) on files produced by the writer model *)
 From Coq Require Import List NArith ZArith Bool Lia ZifyN ZifyNat ZifyBool Permutation Sorted PeanoNat.
 From Coq.Strings Require Import Byte.
 From RecordUpdate Require Import RecordSet.
@@ -555,7 +556,7 @@ Theorem C08_info_no_summary_thm ds B ft :
 Proof. intros. apply parse_summary_no_summary_thm; assumption. Qed.
 
 (* ====================================================================================== *)
-(** * 5. the chunk loader of the indexed reader on rendered chunks (C02) *)
+(** * 4. the chunk loader of the indexed reader on rendered chunks (C02) *)
 
 (* the records of a decompressed chunk: messages, and anything else (schemas, channels, unknown
    opcodes), which the indexed reader steps over *)
@@ -778,7 +779,7 @@ Proof.
 Qed.
 
 (* ====================================================================================== *)
-(** * 4. the order of the summary records does not matter (C12) *)
+(** * 5. the order of the summary records does not matter (C12) *)
 
 Lemma summ_result_fields ro im rs ft :
   let sm := summ_finish ro (fold_left (summ_step ro im) rs (empty_summ <| sm_footer := Some ft |>)) in
@@ -1247,43 +1248,176 @@ Qed.
 (* the summary the indexed reader works with, and a complete read in log-time order *)
 Definition y_sm (ro : ropts) : summ :=
   match parse_summary ds_none {| fs_data := y_F; fs_fail := None |} ro false with Ok sm => sm | _ => empty_summ end.
-Definition y_read (ro : ropts) :=
-  indexed_all x_dall 12 12 ro (y_sm ro) {| fs_data := y_F; fs_fail := None |} (i_init ro y_cis) [] (O, O).
+Notation y_read ro :=
+  (indexed_all x_dall 12 12 ro (y_sm ro) {| fs_data := y_F; fs_fail := None |} (i_init ro y_cis) [] (O, O)).
+Notation y_ro1 := (y_ro [] LogTimeOrder).
 
 Example y_read_value :
-  match y_read (y_ro [] LogTimeOrder) with
+  match y_read y_ro1 with
   | Ok (ms, e, st) => Some (map log_of ms, e, st) | _ => None end = Some ([3; 7; 10; 12], EEOF, (1, 0)%nat) /\
   match y_read (y_ro [[x75]] ReverseLogTimeOrder) with
   | Ok (ms, e, st) => Some (map log_of ms, e, st) | _ => None end = Some ([7; 3], EEOF, (1, 0)%nat).
 Proof. vm_compute. split; reflexivity. Qed.
 
 Example y_end_to_end_hyps :
-  let ro := y_ro [] LogTimeOrder in
   blen y_F < two63 /\
   (forall ci c, In (ci, c) y_pairs -> rendered_chunk_ok x_dall y_F ci c) /\
   Forall2 (ci_match y_pairs) y_cis (map snd y_pairs) /\
-  exists ms st, y_read ro = Ok (ms, EEOF, st).
+  exists ms st, y_read y_ro1 = Ok (ms, EEOF, st).
 Proof.
-  intro ro. split; [vm_compute; reflexivity|]. split; [exact y_chunks_ok|]. split.
+  split; [vm_compute; reflexivity|]. split; [exact y_chunks_ok|]. split.
   - assert (E : y_cis = map fst y_pairs) by (vm_compute; reflexivity). rewrite E.
     apply ci_match_pairs. rewrite y_pairs_list_eq. unfold y_pairs_list.
     constructor; [vm_compute; repeat split|]. constructor; [vm_compute; repeat split|].
     constructor; [vm_compute; repeat split|]. constructor; [vm_compute; repeat split|]. constructor.
-  - destruct y_read_value as [H _]. fold ro in H.
-    destruct (y_read ro) as [[[ms e] st]| | | |]; try discriminate.
+  - destruct y_read_value as [H _].
+    destruct (y_read y_ro1) as [[[ms e] st]| | | |]; try discriminate.
     exists ms, st. inversion H. reflexivity.
 Qed.
 
 Example y_end_to_end_applies :
-  let ro := y_ro [] LogTimeOrder in
-  let sel := tw_sel (sm_channels (y_sm ro)) ro in
-  exists ms st out, y_read ro = Ok (ms, EEOF, st) /\
-    a_read sel (ro_order ro) 12 12 (map snd y_pairs) = Some (out, st) /\ map log_of ms = map am_ts out
+  let sel := tw_sel (sm_channels (y_sm y_ro1)) y_ro1 in
+  exists ms st out, y_read y_ro1 = Ok (ms, EEOF, st) /\
+    a_read sel (ro_order y_ro1) 12 12 (map snd y_pairs) = Some (out, st) /\ map log_of ms = map am_ts out
     /\ Permutation out (filter sel (all_msgs (map snd y_pairs))).
 Proof.
-  intros ro sel. destruct y_end_to_end_hyps as (H1 & H2 & H3 & ms & st & H4).
-  fold ro in H4. exists ms, st. unfold y_read in *.
-  destruct (C02_indexed_read_rendered_thm x_dall ro (y_sm ro) y_F y_pairs 12 12 y_cis (map snd y_pairs) ms st H1 H2 H3 H4)
+  intros sel. destruct y_end_to_end_hyps as (H1 & H2 & H3 & ms & st & H4).
+  exists ms, st.
+  destruct (C02_indexed_read_rendered_thm x_dall y_ro1 (y_sm y_ro1) y_F y_pairs 12 12 y_cis (map snd y_pairs) ms st H1 H2 H3 H4)
     as (out & Ha & Hb & Hc).
   exists out. split; [exact H4|]. split; [exact Ha|]. split; [exact Hb|exact Hc].
+Qed.
+
+(* the other theorems of sections 3 and 4 on the same file *)
+Example y_parse_summary_applies : forall ro im,
+  parse_summary ds_none {| fs_data := y_F; fs_fail := None |} ro im =
+    Ok (summ_finish ro (fold_left (summ_step ro im) (map fst y_S) (empty_summ <| sm_footer := Some y_ft |>))).
+Proof.
+  intros ro im. destruct y_file_shape as [E _]. rewrite E.
+  destruct y_info_hyps as (H1 & H2 & H3 & H4 & H5).
+  exact (parse_summary_rendered_thm ds_none ro im y_pre y_S y_ft H1 H2 H3 H4 H5).
+Qed.
+
+Example y_dispatch_applies : forall os,
+  messages_dispatch ds_none {| fs_data := y_F; fs_fail := None |} os =
+  messages_dispatch ds_none {| fs_data := summ_file y_pre y_S' y_ft; fs_fail := None |} os.
+Proof.
+  intro os. destruct y_file_shape as [E _]. rewrite E.
+  destruct y_info_hyps as (H1 & H2 & H3 & H4 & H5).
+  destruct y_order_hyps as (P & _ & N1 & N2 & N3 & N4 & _).
+  exact (C12_dispatch_thm ds_none y_pre y_S y_S' y_ft y_ft os P H1 H2 H2 H3 eq_refl H4 H5 N1 N2 N3 N4).
+Qed.
+
+(* summary offset records are ignored records of the summary *)
+Lemma wf_so_item so : wf_sitem (so_srec so, []).
+Proof.
+  split.
+  - cbn [fst so_srec wf_srec]. apply ignored_opb_ok. reflexivity.
+  - cbn [fst snd so_srec srec_body]. rewrite app_nil_r. unfold enc_sumoffset, blen.
+    cbn [length]. rewrite app_length, !u64_length. reflexivity.
+Qed.
+
+(* ---------- a compressed chunk: compression name zstd, the codec is an oracle (here: identity) ---------- *)
+Definition z_o : wopts :=
+  {| o_crc := true; o_chunked := true; o_chunksize := 4096; o_comp := comp_zstd; o_custom := true;
+     o_skip_mi := false; o_skip_stats := false; o_skip_rsh := false; o_skip_rch := false;
+     o_skip_ai := false; o_skip_mdi := false; o_skip_ci := false; o_skip_so := false;
+     o_override_lib := false; o_skip_magic := false |}.
+Definition z_R : wresult := W z_o [x6c] (fun _ b => b) None y_cs.
+Definition z_F : bytes := file_of z_R.
+Definition z_tr : list item := rev (w_trace (r_final z_R)).
+Definition z_dall : dalloracle := fun _ payload _ => Some payload.
+Definition z_ci : chunkindex := nth 0 (w_chunk_indexes (r_final z_R)) x_ci.
+Definition z_ac : achunk := ac_of (nth 0 (chunks_at 0 z_tr) (0, x_chunk)).
+
+Example z_shape :
+  r_new z_R = None /\ map fst (r_calls z_R) = repeat None 11 /\
+  map (fun x => k_comp (snd x)) (chunks_at 0 z_tr) = [comp_zstd] /\ map am_ts (ac_msgs z_ac) = [10; 7; 12; 3].
+Proof. vm_compute. repeat split. Qed.
+
+Example z_chunk_plain_oracle :
+  let k := snd (nth 0 (chunks_at 0 z_tr) (0, x_chunk)) in
+  (k_comp k = comp_zstd \/ k_comp k = comp_lz4) /\
+  z_dall (k_comp k) (k_records k) (k_usize k) = Some (k_records k) /\ blen (k_records k) = k_usize k
+  /\ k_usize k < max_int32.
+Proof. vm_compute. repeat split. left. reflexivity. Qed.
+
+Example z_chunk_plain_applies :
+  let k := snd (nth 0 (chunks_at 0 z_tr) (0, x_chunk)) in Iter.chunk_plain z_dall k = Ok (k_records k).
+Proof.
+  intro k. destruct z_chunk_plain_oracle as (H1 & H2 & H3 & H4). exact (chunk_plain_oracle z_dall k _ H1 H2 H3 H4).
+Qed.
+
+Example z_chunk_ok : rendered_chunk_ok z_dall z_F z_ci z_ac.
+Proof.
+  eapply (rendered_chunk_ok_intro z_dall z_F 4%nat z_tr);
+  [ vm_compute; reflexivity | vm_compute; reflexivity | vm_compute; reflexivity | vm_compute; reflexivity
+  | apply wf_chunkb_iff; vm_compute; reflexivity | vm_compute; reflexivity
+  | apply wf_krecb_ok; vm_compute; reflexivity | apply map_am_of_match ].
+Qed.
+
+(* an uncompressed chunk, for chunk_plain_uncompressed *)
+Example y_chunk_plain_uncompressed :
+  let k := snd (nth 0 y_chunks (0, x_chunk)) in
+  k_comp k = [] /\ k_usize k = blen (k_records k) /\ blen (k_records k) < max_int32.
+Proof. vm_compute. repeat split. Qed.
+
+(* ---------- Info, with the summary offset records written separately ---------- *)
+Definition so_item (so : sumoffset) : item := IRec OpSummaryOffset (enc_sumoffset so).
+
+Lemma map_so_items offs : map sum_item (map (fun so => (so_srec so, [])) offs) = map so_item offs.
+Proof.
+  induction offs as [|so offs IH]; [reflexivity|]. cbn [map]. rewrite IH. f_equal.
+Qed.
+
+Lemma flat_map_so {B} (g : srec -> list B) (offs : list sumoffset) :
+  (forall op body, g (SOther op body) = []) ->
+  flat_map g (map fst (map (fun so => (so_srec so, @nil byte)) offs)) = [].
+Proof.
+  intro Hg. induction offs as [|so offs IH]; [reflexivity|]. cbn [map flat_map fst]. unfold so_srec at 1.
+  rewrite Hg, IH. reflexivity.
+Qed.
+
+Theorem C08_info_offs_thm ds pre (summary : list (srec * bytes)) (offs : list sumoffset) ss sos crc :
+  let ft := {| f_summary_start := ss; f_summary_offset_start := sos; f_crc := crc |} in
+  let F := render (pre ++ map sum_item summary ++ map so_item offs ++ [IFooter ss sos crc; IMagic]) in
+  Forall wf_sitem summary -> wf_footer ft ->
+  ss = blen (render pre) -> 0 < ss -> ss < two63 ->
+  let rs := map fst summary in
+  exists sm, info ds {| fs_data := F; fs_fail := None |} = Ok sm /\
+    sm_footer sm = Some ft /\
+    sm_schemas sm = tab_of s_id (schemas_of rs) [] /\
+    sm_channels sm = tab_of c_id (channels_of rs) [] /\
+    (forall id, tab_get id (sm_schemas sm) = find (fun s => s_id s =? id) (rev (schemas_of rs))) /\
+    (forall id, tab_get id (sm_channels sm) = find (fun c => c_id c =? id) (rev (channels_of rs))) /\
+    sm_ais sm = ais_of rs /\
+    sm_mxs sm = mxs_of rs /\
+    sm_cis sm = ci_sort FileOrder (cis_of rs) /\
+    sm_stats sm = last_or (stats_of rs) None.
+Proof.
+  intros ft F HW Wft Hss Hpos H63 rs.
+  set (S := summary ++ map (fun so => (so_srec so, [])) offs).
+  assert (HF : F = summ_file pre S ft).
+  { unfold F, summ_file, S, footer_item, ft. cbn [f_summary_start f_summary_offset_start f_crc].
+    rewrite map_app, map_so_items, <- app_assoc. reflexivity. }
+  assert (HWS : Forall wf_sitem S).
+  { unfold S. apply Forall_app. split; [exact HW|]. apply Forall_forall. intros x Hx.
+    apply in_map_iff in Hx. destruct Hx as (so & <- & _). apply wf_so_item. }
+  destruct (C08_info_thm ds pre S ft HWS Wft Hss Hpos H63) as (sm & Hi & R).
+  exists sm. rewrite HF. split; [exact Hi|].
+  assert (E : forall B (g : srec -> list B), (forall op body, g (SOther op body) = []) ->
+              flat_map g (map fst S) = flat_map g rs).
+  { intros B g Hg. unfold S, rs. rewrite map_app, flat_map_app, flat_map_so by exact Hg. apply app_nil_r. }
+  unfold schemas_of, channels_of, stats_of, cis_of, ais_of, mxs_of in *.
+  rewrite !E in R by reflexivity. exact R.
+Qed.
+
+Example y_info_offs_hyps :
+  let summary := firstn 10 y_S in
+  let offs := [ {| so_op := OpSchema; so_start := 1; so_length := 2 |} ] in
+  let ft := {| f_summary_start := 652; f_summary_offset_start := 0; f_crc := 0 |} in
+  Forall wf_sitem summary /\ wf_footer ft /\ 652 = blen (render y_pre) /\ 0 < 652 /\ 652 < two63 /\ length offs = 1%nat.
+Proof.
+  cbv zeta. split; [apply wf_sitemb_ok; vm_compute; reflexivity|].
+  split; [apply wf_footerb_iff; vm_compute; reflexivity|]. vm_compute. repeat split.
 Qed.
